@@ -326,6 +326,60 @@ def _shard_seed(seed, shard):
     return int(seed) * 1000 + int(shard)
 
 
+def _shard_child(job, path):
+    import pickle
+
+    _fresh_tqdm_lock()
+    out = run_shard(job)
+    with open(path + ".tmp", "wb") as f:
+        pickle.dump(out, f)
+    os.replace(path + ".tmp", path)
+
+
+def _fresh_tqdm_lock():
+    """tqdm (the solvers' progress bars) keeps a multiprocessing lock and a monitor thread; after a fork neither may
+    be shared with the parent or the sibling shards."""
+    try:
+        import threading
+        import tqdm
+
+        tqdm.tqdm.monitor_interval = 0
+        tqdm.tqdm.set_lock(threading.RLock())
+    except Exception:
+        pass
+
+
+def _run_shards_forked(jobs, width):
+    import pickle
+    import shutil
+    import tempfile
+
+    ctx = mp.get_context("fork")
+    tmp = tempfile.mkdtemp(prefix="vshards.")
+    outs = [None] * len(jobs)
+    try:
+        pending = list(enumerate(jobs))
+        running = []
+        while pending or running:
+            while pending and len(running) < width:
+                i, job = pending.pop(0)
+                pr = ctx.Process(target=_shard_child, args=(job, os.path.join(tmp, f"{i}.pkl")))
+                pr.start()
+                running.append((i, pr))
+            i, pr = running.pop(0)
+            pr.join()
+            path = os.path.join(tmp, f"{i}.pkl")
+            if pr.exitcode != 0 or not os.path.exists(path):
+                for _, other in running:
+                    other.kill()
+                return None
+            with open(path, "rb") as f:
+                outs[i] = pickle.load(f)
+        return outs
+    finally:
+        shutil.rmtree(tmp, ignore_errors=True)
+
+
 def run_shard(args):
     """Worker: generated search for one shard. Returns a summary dict."""
     modname, tier, seed, shard, ncases, do_shrink = args
@@ -471,6 +525,8 @@ def replay_file(mod, path, known):
 
 def main(argv=None):
     import argparse
+
+    _fresh_tqdm_lock()
     import importlib
 
     ap = argparse.ArgumentParser()
@@ -550,16 +606,11 @@ def main(argv=None):
     if nshards == 1:
         outs = [run_shard(jobs[0])]
     else:
-        # ProcessPoolExecutor rather than mp.Pool: when a worker process dies (out of memory, a crash in native code)
-        # the executor raises BrokenProcessPool, whereas Pool.map would wait for the lost shard for ever
-        from concurrent.futures import ProcessPoolExecutor
-        from concurrent.futures.process import BrokenProcessPool
-
-        ctx = mp.get_context("fork")
-        try:
-            with ProcessPoolExecutor(min(nshards, int(os.environ.get("VERIF_JOBS", "16"))), mp_context=ctx) as pool:
-                outs = list(pool.map(run_shard, jobs))
-        except BrokenProcessPool:
+        # One forked process per shard, each writing its summary to a file; the parent only joins them. No queues,
+        # locks or helper threads are shared between the processes: both multiprocessing.Pool and
+        # ProcessPoolExecutor were seen to wait for ever for a shard that every worker had finished (DESIGN 7.9).
+        outs = _run_shards_forked(jobs, min(nshards, int(os.environ.get("VERIF_JOBS", "16"))))
+        if outs is None:
             print(f"HARNESS-ERROR property={prop} a worker process died; no verdict")
             return 2
     for o in outs:
